@@ -40,9 +40,86 @@ size_t strlen (const char *s)
   size_t r;
   if (xv_str_lookup (s, &r))
     return r;
-  for (size_t i = 0; i < XV_STR_SCAN; i++)
+  for (size_t i = 0; i < XV_STR_SCAN; i++)   /* XV_UNWIND STR */
     if (s[i] == 0)
       return i;
   __CPROVER_assert (0, "unwinding assertion: strlen of an unregistered string longer than the model's scan bound");
   return 0;
 }
+
+/* strcspn / strspn: exact for the first XV_SPAN_SCAN characters (a constant
+   loop); beyond that the result is any position up to the ghost length whose
+   character is a stop character or the NUL - an over-approximation that only
+   matters for strings longer than XV_SPAN_SCAN, which no caller accepts.  */
+#ifndef XV_SPAN_SCAN
+#define XV_SPAN_SCAN 512
+#endif
+
+static _Bool xv_in_set (char c, const char *set)
+{
+  /* every set the library passes has at most 64 members */
+  for (int j = 0; j < 65; j++)   /* XV_UNWIND 65 */
+    {
+      if (set[j] == 0) return 0;
+      if (set[j] == c) return 1;
+    }
+  __CPROVER_assert (0, "unwinding assertion: strcspn/strspn set longer than 64");
+  return 0;
+}
+
+static size_t xv_span (const char *s, const char *set, _Bool want_member)
+{
+  size_t len;
+  _Bool reg = xv_str_lookup (s, &len);
+  for (size_t i = 0; i < XV_SPAN_SCAN; i++)   /* XV_UNWIND SPAN */
+    {
+      if (reg && i >= len) return len;
+      if (s[i] == 0) return i;
+      if (xv_in_set (s[i], set) != want_member) return i;
+    }
+  __CPROVER_assert (reg, "unwinding assertion: strcspn/strspn on an unregistered string longer than the scan bound");
+  size_t r = nondet_size ();
+  __CPROVER_assume (r >= XV_SPAN_SCAN && r <= len);
+  __CPROVER_assume (r == len || s[r] == 0 || xv_in_set (s[r], set) != want_member);
+  return r;
+}
+
+size_t strcspn (const char *s, const char *reject) { return xv_span (s, reject, 0); }
+size_t strspn (const char *s, const char *accept) { return xv_span (s, accept, 1); }
+
+int xv_errno;
+
+/* explicit_bzero (libc on this configuration, HAVE_EXPLICIT_BZERO).
+   Contract: zeroes exactly [s, s+n) and is never optimised away.
+   Two models:
+   - default: performs the write (memset);
+   - XV_BZERO_EVENTS: records the call in a ghost log and leaves memory alone.
+     Used where the region is tens of kilobytes inside a struct, which CBMC
+     bit-blasts: the caller's postcondition "the field is all zero at return"
+     is then derived from this contract (logged call covering the whole field
+     after the last writer) plus a frame obligation that the caller itself
+     does not write the field.  */
+struct xv_bzero_ev xv_bzero_log[XV_BZERO_LOG];
+unsigned xv_bzero_n;
+
+void explicit_bzero (void *s, size_t n)
+{
+  __CPROVER_assert (n == 0 || __CPROVER_w_ok (s, n), "[C04] explicit_bzero: region is writable");
+#ifdef XV_BZERO_EVENTS
+  if (xv_bzero_n < XV_BZERO_LOG)
+    {
+      xv_bzero_log[xv_bzero_n].p = s;
+      xv_bzero_log[xv_bzero_n].n = n;
+      xv_bzero_log[xv_bzero_n].seq = xv_event_seq++;
+      xv_bzero_n++;
+    }
+  else
+    __CPROVER_assert (0, "unwinding assertion: explicit_bzero ghost log full");
+#else
+#ifndef PROBE_NOBZERO
+  if (n > 0)
+    memset (s, 0, n);
+#endif
+#endif
+}
+unsigned xv_event_seq;
